@@ -149,7 +149,7 @@ def first_diff(a, b):
     return min(len(a), len(b))
 
 
-def expected_cadence(meta):
+def expected_cadence(meta, repaired=False):
     """declarative cadence: every prescribed time start + j*sign*interval (resp. step start + j*s) that the run
     reaches gets exactly one automatic snapshot, at the first step boundary at or after it (in the direction of
     integration: sign = sign of dt, backward integrations included).  The heartbeat runs once per recorded
@@ -174,6 +174,11 @@ def expected_cadence(meta):
                     if sign * nxt <= sign * t:
                         lag = True      # more than one prescribed time passed within one step (|dt| > |interval|),
                                         # or the direction was reversed with `next` left behind
+                        if repaired and val > 0:      # repaired source: passed output times are skipped
+                            import math
+                            nxt += sign * (math.floor(sign * (t - nxt) / val) + 1.0) * val
+                            if sign * nxt <= sign * t:
+                                nxt += sign * val
             else:
                 if nxt <= sd:
                     exp.append((sd, th)); seg["nnew"] += 1
@@ -301,6 +306,51 @@ def api_case(c, rebound, W, stats, dims, rng):
             chk("getSimulation_outside", False)
         except ValueError:
             chk("getSimulation_outside", True)
+        # archive contents from memory (pickle path: Simulation(bytes) -> reb_simulationarchive_init_from_buffer_with_messages)
+        import pickle, io, contextlib
+        chk("Simulation(bytes_of_archive)", rebound.Simulation(open(fn, "rb").read()).t == ts[-1])
+        s3 = sa[3]
+        s3p = pickle.loads(pickle.dumps(s3))
+        chk("pickle_roundtrip", s3p.t == ts[3] and s3p.particles[1].x == xs[3] and s3p == s3)
+        s3c = s3.copy()
+        chk("copy_of_restored", s3c.t == ts[3] and s3c.particles[1].x == xs[3] and s3c == s3)
+        chk("eq_distinguishes_snapshots", not (sa[2] == sa[3]))
+        buf = io.StringIO()
+        with contextlib.redirect_stdout(buf):
+            s3.diff(sa[2])
+        chk("diff_names_t", "t" in buf.getvalue() and len(buf.getvalue()) > 0, buf.getvalue()[:80])
+        buf = io.StringIO()
+        with contextlib.redirect_stdout(buf):
+            s3.diff(sa[3])
+        chk("diff_of_equal_is_empty", buf.getvalue().strip() == "", buf.getvalue()[:80])
+        buf = io.StringIO()
+        with contextlib.redirect_stdout(buf):
+            s3.status(showAllFields=True)
+        chk("status_lists_fields", "dt" in buf.getvalue(), buf.getvalue()[-120:])
+        # reuse_index: a second archive of exactly the same shape opened with the first one's index
+        fn2 = os.path.join(wd, "api2.bin")
+        sim2 = rebound.Simulation()
+        sim2.add(m=1.0); sim2.add(m=1e-3, a=1.1); sim2.add(m=1e-3, a=1.9)
+        sim2.integrator = integ
+        sim2.dt = 0.01
+        if integ == "ias15":
+            sim2.ri_ias15.epsilon = 0
+        xs2 = []
+        for i in range(nsn):
+            sim2.save_to_file(fn2)
+            xs2.append(sim2.particles[1].x)
+            sim2.steps(3 + i)
+        sb2 = rebound.Simulationarchive(fn2, reuse_index=sa)
+        sb3 = rebound.Simulationarchive(fn2)
+        chk("reuse_index", len(sb2) == nsn and all(sb2[i].particles[1].x == xs2[i] and sb2[i] == sb3[i] for i in range(nsn)),
+            [(sb2[i].particles[1].x, xs2[i]) for i in range(min(nsn, len(sb2)))][:3])
+        del sb2, sb3
+        try:
+            verts, codes = sa.getBezierPaths(origin=0)
+            chk("getBezierPaths", verts.shape == (3 * n - 2, 3, 2) and len(codes) == 3 * n - 2 and
+                all(abs(verts[3 * i, 1, 0] - (sa[i].particles[1].x - sa[i].particles[0].x)) < 1e-15 for i in range(n)), verts.shape)
+        except ImportError:
+            chk("getBezierPaths", True, "numpy missing")
         del sa
         # delete_file=True: the archive starts over with the current state
         sim.save_to_file(fn, delete_file=True)
@@ -450,9 +500,16 @@ def run(c):
 
 
 def _run(c, rebound, exe, W, d):
+    from common import REPO
+    cent, cint = ac.entry_points(REPO)
+    pyent = ac.py_entry_points(REPO, cent)
+    elog = os.path.join(W, "entry.log")
+    ac.install_entry_trace(rebound, elog, cent, pyent)
     v = probe_variant(c, rebound, os.path.join(W, "probe"))
     V = vstr(v)
-    c.cov["source_variant"] = {"F1_fixed": v[0], "F11_fixed": v[1], "F19_fixed": v[3], "F18_particles_bitwise": v[4], "F5_varconfig_memberwise": v[5]}
+    cad_repaired = ac.probe_cadence_variant(rebound, os.path.join(W, "probe"))
+    c.cov["source_variant"] = {"F1_fixed": v[0], "F11_fixed": v[1], "F19_fixed": v[3], "F18_particles_bitwise": v[4], "F5_varconfig_memberwise": v[5],
+                               "cadence_skips_passed_times": cad_repaired}
     c.log("source behaves as model variant", V)
     nh = 2500 if c.thorough else 260
     maxapp = 25 if c.thorough else 10
@@ -746,6 +803,19 @@ def _run(c, rebound, exe, W, d):
                 ls = rr.stdout.splitlines()
                 got = [(int(x.split("off=")[1].split()[0]), x.split("t=")[1].split()[0], "load=ok" in x) for x in ls if x.startswith("blob")]
                 want = [(bl["off"], (ac.rec_value(bl["recs"], ac.T_ID) or ac.rec_value(blobs[0]["recs"], ac.T_ID))[::-1].hex(), True) for bl in blobs]
+                # the other C entry points on the same archive: reb_simulation_copy / reb_simulation_diff_char of the last
+                # snapshot (mode 4), index reuse (mode 5), caller-owned handle (1), from memory (2), create_from_file (3)
+                eb = subprocess.run([open_exe, "--batch"], input="".join("%s - %d\n" % (os.path.join(wd, "arch.bin"), m_) for m_ in (1, 2, 3, 4, 5)),
+                                    capture_output=True, text=True).stdout.splitlines()
+                tl = want[-1][1] if want else "-"
+                okl = [l for l in eb if l.startswith("entry ")]
+                badl = [l for l in okl if not (("nblobs=%d " % len(want)) in l or ("sim=ok t=%s" % tl) in l)]
+                if len(okl) != 5 or badl or any(l.startswith("status ") and l != "status 0" for l in eb) or any(l.startswith("load") and not l.endswith("ok") for l in eb):
+                    V("c_api:entry", "C entry points on a complete archive of %d snapshots (last t=%s): %s" % (len(want), tl, (badl or eb)[:3]), dict(history=hist))
+                elif any(l.startswith("entry 4") and ("copy=ok copy_t=%s" % tl) not in l for l in okl):
+                    V("c_api:copy", "reb_simulation_copy of the restored last snapshot: %s" % [l for l in okl if l.startswith("entry 4")], dict(history=hist))
+                else:
+                    stats["c_api_entry_sets"] = stats.get("c_api_entry_sets", 0) + 1
                 if rr.returncode != 0 or got != want:
                     V("c_api:index", "C API (create_from_file + create_from_simulationarchive) exposes %s, the file holds %s" % (got[:4], want[:4]), dict(history=hist, rc=rr.returncode))
             tracker.add(row)
@@ -827,7 +897,7 @@ def _run(c, rebound, exe, W, d):
         # (d) automatic cadence
         if hist["auto"]:
             stats["auto_histories"] += 1
-            exp, lag, segs = expected_cadence(meta)
+            exp, lag, segs = expected_cadence(meta, cad_repaired)
             got = [(a["steps"], a["t"]) for a in meta["appends"] if a["kind"] == "auto"]
             stats["auto_snapshots"] += len(got)
             dirs = tuple(sg["sign"] for sg in segs)
@@ -852,7 +922,7 @@ def _run(c, rebound, exe, W, d):
             evs = [e for e in meta["events"] if isinstance(e, dict) and "hb" in e and e["auto"] is not None]
             for sg in segs:
                 if sg["mode"] == "interval":
-                    lines.append("cad %d %s %s %s" % (sg["sign"], d2h(sg["val"]), d2h(sg["next0"]), " ".join(th for _, th in sg["bounds"])))
+                    lines.append("%s %d %s %s %s" % ("cadR" if cad_repaired else "cad", sg["sign"], d2h(sg["val"]), d2h(sg["next0"]), " ".join(th for _, th in sg["bounds"])))
                 else:
                     lines.append("cadstep %d %d %s" % (sg["val"], sg["next0"], " ".join(str(sd) for sd, _ in sg["bounds"])))
             outs = run_driver(exe, lines) if lines else []
@@ -965,6 +1035,17 @@ def _run(c, rebound, exe, W, d):
         c.broken.append("pairwise coverage of the history factors incomplete: %d of %d pairs; missing e.g. %s" % (
             c.cov["pairs"]["covered"], c.cov["pairs"]["total"], c.cov["pairs"]["missing"][:5]))
     c.cov["dimensions"] = dict(sorted(dims.items()))
+    # ---- public entry points (extracted from the source under test): each must have run at least once
+    c_seen, py_seen = ac.read_entry_trace(elog)
+    if stats.get("c_api_entry_sets"):
+        c_seen |= ac.harness_calls([os.path.join(ROOT, "harness", "c07_open.c")], cent)
+    ep_missing = sorted(set(cent) - c_seen) + sorted(set(pyent) - py_seen)
+    c.cov["entry_points"] = dict(c_extracted=len(cent), c_exercised=len(set(cent) & c_seen), python_extracted=len(pyent), python_exercised=len(set(pyent) & py_seen),
+                                 c=sorted(cent), python=sorted(pyent), not_exported_on_the_way=sorted(cint), missing=ep_missing)
+    if len(cent) < 15 or len(pyent) < 10:
+        c.corr_break("entry-point extraction found only %d C functions / %d Python methods" % (len(cent), len(pyent)))
+    if ep_missing:
+        c.broken.append("public entry point(s) reaching the archive code not exercised in this run: %s" % ", ".join(ep_missing))
     missing = [d_ for d_ in REQUIRED_DIMS if not dims.get(d_)]
     c.cov["dimensions_missing"] = missing
     if missing and time.time() - t_start < budget:
